@@ -27,7 +27,7 @@ import (
 	authtypes "github.com/cosmos/cosmos-sdk/x/auth/types"
 )
 
-func init() { props["C16"] = func(r *Rec) { runC16(r); c16Signers(r); c16GentxClaim(r); recFor(r, "C16"); c02For(r, "C16") } }
+func init() { props["C16"] = func(r *Rec) { runC16(r); c16Signers(r); c16GentxClaim(r); c16HardForkTool(r); recFor(r, "C16"); c02For(r, "C16") } }
 
 const (
 	kfC16WholePath = "C16/setkeys-whole/unique-list-extended-without-duplicate-scan"
